@@ -295,7 +295,12 @@ impl FileWatcher {
                     }
                 }
                 EventKind::Create(_create_kind) => {
-                    has_created = paths_iterator.next().is_some();
+                    for path in paths_iterator {
+                        has_created = true;
+                        // a file saved by writing a temporary file and renaming it over
+                        // the original is reported as the creation of an existing path
+                        worker_tree.source_changed(path);
+                    }
                 }
                 EventKind::Modify(modify_kind) => {
                     if let ModifyKind::Name(_rename_mode) = modify_kind {
